@@ -123,10 +123,14 @@ class BaseTransformation(ABC):
         # Evaluate inverse transformation in terms of arrays
         out_arr = self.call_array(x_arr)
 
-        # Convert to right output type
+        # Convert to right output type (plain arrays need no conversion)
         if array_input:
+            if self.output_array_dtype is np.ndarray:
+                return out_arr
             return self.output_array_dtype(out_arr)
         else:
+            if self.output_dtype is np.ndarray:
+                return out_arr[0]
             return self.output_dtype(out_arr[0])
 
     def inverse(
@@ -155,10 +159,14 @@ class BaseTransformation(ABC):
         # Evaluate inverse transformation in terms of arrays
         out_arr = self.inverse_array(x_arr)
 
-        # Convert to right output type
+        # Convert to right output type (plain arrays need no conversion)
         if array_input:
+            if self.input_array_dtype is np.ndarray:
+                return out_arr
             return self.input_array_dtype(out_arr)
         else:
+            if self.input_dtype is np.ndarray:
+                return out_arr[0]
             return self.input_dtype(out_arr[0])
 
     @abstractmethod
